@@ -175,14 +175,10 @@ func runC19(p *Prog, r *Report, tier string) {
 		var recsCall *ssa.Call
 		eachInstr(f, func(in ssa.Instruction) {
 			if i, ok := in.(*ssa.If); ok {
-				if b, ok := i.Cond.(*ssa.BinOp); ok && (b.Op == token.EQL || b.Op == token.NEQ) {
-					if c, ok := b.X.(*ssa.Call); ok && calleeName(&c.Call) == "iface:pkg/entities.Set.GetSetType" {
-						if v, ok := constInt(b.Y); ok && v == 0 {
-							ts := 0
-							if b.Op == token.NEQ {
-								ts = 1
-							}
-							blk := i.Block().Succs[ts]
+				for _, cf := range cmpForms(i.Cond) {
+					if c, ok := cf.X.(*ssa.Call); ok && cf.Op == token.EQL && calleeName(&c.Call) == "iface:pkg/entities.Set.GetSetType" {
+						if v, ok := constInt(cf.Y); ok && v == 0 {
+							blk := i.Block().Succs[cf.Succ]
 							for _, x := range blk.Instrs {
 								if rt, ok := x.(*ssa.Return); ok && len(rt.Results) == 1 {
 									if cst, ok := rt.Results[0].(*ssa.Const); ok && cst.IsNil() {
@@ -221,28 +217,28 @@ func runC19(p *Prog, r *Report, tier string) {
 				whyF = "the output slice is not allocated with len(records)"
 				return
 			}
-			cv, ok := st.Val.(*ssa.Call)
-			if !ok {
-				return
-			}
-			var recArg ssa.Value
+			// what the stored value is computed from (backward slice through call arguments and through the objects the
+			// iteration fills: the conversion may be a closure, a method, or spliced in place)
+			var recArgs []ssa.Value
 			hasMsg := false
-			for _, a := range cv.Call.Args {
+			for _, a := range backwardSlice(st.Val, 400) {
 				if a == msg {
 					hasMsg = true
 				}
-				if s, ok := rangeElem(a); ok && s == ssa.Value(recsCall) {
-					recArg = a
+				if s, ok := rangeElem(a); ok && sameValue(s, recsCall) {
+					recArgs = append(recArgs, a)
 				}
 			}
-			if recArg == nil || !hasMsg {
+			if len(recArgs) == 0 || !hasMsg {
 				whyF = "out[i] is not built from (msg, records[i])"
 				return
 			}
 			// same index
-			if recArg.(*ssa.UnOp).X.(*ssa.IndexAddr).Index != ia.Index {
-				whyF = "out[i] is filled from records[j] with a different index: records are re-ordered"
-				return
+			for _, recArg := range recArgs {
+				if !sameValue(recArg.(*ssa.UnOp).X.(*ssa.IndexAddr).Index, ia.Index) {
+					whyF = "out[i] is filled from records[j] with a different index: records are re-ordered"
+					return
+				}
 			}
 			if ms.Parent() == f && !inLoop(ms.Block()) {
 				okFill = true
